@@ -11,6 +11,8 @@ import (
 	"encoding/json"
 	"fmt"
 	"os"
+	"path/filepath"
+	"runtime"
 	"runtime/debug"
 	"sort"
 	"strconv"
@@ -178,6 +180,7 @@ type Cell struct {
 	start       time.Time
 	deadline    time.Time
 	Fatal       bool // set when the cell cannot continue (execution aborted)
+	DebugLog    []string
 }
 
 // Thorough tells whether the thorough tier is running.
@@ -242,6 +245,7 @@ func (x *Cell) Violate(prop, sig, msg string, replay any) {
 }
 
 type cellReg struct {
+	pkg   string
 	prop  string
 	name  string
 	tiers string // "quick", "thorough", "both"
@@ -252,7 +256,13 @@ var registry []cellReg
 
 // Register adds a cell for a property. tiers: "both", "quick" or "thorough".
 func Register(prop, name, tiers string, fn func(x *Cell)) {
-	registry = append(registry, cellReg{prop, name, tiers, fn})
+	// the registering package = directory of the caller's file (a harness package that imports another
+	// one must not inherit its cells)
+	pkg := ""
+	if _, file, _, ok := runtime.Caller(1); ok {
+		pkg = filepath.Base(filepath.Dir(file))
+	}
+	registry = append(registry, cellReg{pkg, prop, name, tiers, fn})
 }
 
 // Hash is a short stable hash used for state/outcome sets.
@@ -299,7 +309,7 @@ func Main(t *testing.T, pkg string) {
 	seed, _ := strconv.ParseInt(os.Getenv("VERIF_SEED"), 10, 64)
 	var cells []cellReg
 	for _, c := range registry {
-		if c.prop == prop && (c.tiers == "both" || c.tiers == tier) {
+		if c.pkg == pkg && c.prop == prop && (c.tiers == "both" || c.tiers == tier) {
 			cells = append(cells, c)
 		}
 	}
@@ -447,3 +457,6 @@ func Unblock() int64 {
 
 // Parked is the number of goroutines currently parked in shim locks.
 func Parked() int64 { return core.Parked() }
+
+// NewCellForDebug makes a throw-away cell (debug tests only).
+func NewCellForDebug(t *testing.T) *Cell { return newCell(t, "DBG", "quick", "debug", "debug", 0) }
